@@ -144,7 +144,7 @@ PROPS = {
         'assumptions': COMMON_ASSUME + ['route agreement (reader presets, JSON, HTTP query) is covered by the streams of C04/C14/C17, not by these theorems'],
     },
     'C19': {
-        'props': ['theories/Props/C19.v'], 'deps': VERIFY_DEPS,
+        'props': ['theories/Props/C19.v'], 'deps': VERIFY_DEPS + ['theories/Model/Codec.v', 'theories/Model/Converters.v'],
         'streams': ['l3-validate', 'l3-write'],
         'trusted_base': GOV_TB,
         'assumptions': COMMON_ASSUME,
